@@ -107,6 +107,8 @@ pub const KITS: &[Kit] = &[
               Form { kind: FormKind::Md, open: "(", close: ")", cont: "", family: 0, quote: '"', pre: "", post: "" },
               Form { kind: FormKind::Md, open: "\"", close: "\"", cont: "", family: 0, quote: '\'', pre: "", post: "" },
               Form { kind: FormKind::Md, open: "'", close: "'", cont: "", family: 0, quote: '"', pre: "", post: "" },
+              // The title of the link reference definition sits on the next line.
+              Form { kind: FormKind::Md, open: "\n  (", close: ")", cont: "", family: 0, quote: '"', pre: "", post: "" },
               Form { kind: FormKind::Block, open: "<!--", close: "-->", cont: "", family: 1, quote: '"', pre: "", post: "" },
               // An HTML comment that opens a block quote (the HTML block does not start in the first
               // column); one-line layouts only. (A list item would turn the indented-code decoy that
